@@ -274,10 +274,24 @@ fn apply_edit(lines: &[String], op: usize) -> Vec<String> {
     out
 }
 
-const TOKENS: [&str; 20] = [
+const TOKENS: [&str; 22] = [
     "opw_kinematics_geometric_parameters:", "a1:", "opw_kinematics_joint_offsets:", "opw_kinematics_joint_sign_corrections:", "dof:",
-    "\n", "  ", " ", "[", "]", ",", "1", "0.5", "deg(90)", "-", "{", "}", "\"", "---", "#",
+    "\n", "  ", " ", "[", "]", ",", "1", "0.5", "deg(", ")", "90", "-", "{", "}", "\"", "---", "#",
 ];
+
+/// Entries that are not a number and not a well-formed deg(<number>): the file must be rejected, not misread.
+const BAD_OFFSET_ENTRIES: [&str; 10] = ["deg(", "deg(90", "deg 90)", "deg(9 0)", "deg()", "deg(x)", "deg(90))", "(90)", "deg(90\u{b0}", "ninety"];
+
+fn offsets_document(entry_index: usize, entry: &str, block_style: bool) -> String {
+    let mut items: Vec<String> = vec!["0".into(), "0".into(), "deg(-90)".into(), "0".into(), "0".into(), "deg(180)".into()];
+    items[entry_index] = entry.to_string();
+    let head = "opw_kinematics_geometric_parameters:\n  a1: 0.15\n  a2: -0.10\n  b: 0.0\n  c1: 0.525\n  c2: 0.77\n  c3: 0.74\n  c4: 0.10\n";
+    if block_style {
+        format!("{head}opw_kinematics_joint_offsets:\n{}\n", items.iter().map(|i| format!("  - {i}")).collect::<Vec<_>>().join("\n"))
+    } else {
+        format!("{head}opw_kinematics_joint_offsets: [{}]\n", items.join(", "))
+    }
+}
 
 pub fn run(ctx: &Ctx) -> Report {
     let thorough = !ctx.quick();
@@ -348,7 +362,7 @@ pub fn run(ctx: &Ctx) -> Report {
     });
     rep.merge(erep);
     // no panic: token strings
-    let (ntok, maxlen) = if thorough { (20u64, 5u32) } else { (20u64, 4u32) };
+    let (ntok, maxlen) = if thorough { (22u64, 5u32) } else { (22u64, 4u32) };
     for len in 0..=maxlen {
         let count = ntok.pow(len);
         let trep = par::run(count, |idx, r| {
@@ -372,6 +386,28 @@ pub fn run(ctx: &Ctx) -> Report {
             }
         });
         rep.merge(trep);
+    }
+    // array-element level: every offsets entry replaced by every malformed entry (flow and block style) and by the junk tokens
+    for (ei, entry) in BAD_OFFSET_ENTRIES.iter().chain(JUNK.iter()).enumerate() {
+        for idx in 0..6 {
+            for block in [false, true] {
+                let text = offsets_document(idx, entry, block);
+                rep.states += 1;
+                rep.transitions += 1;
+                let must_err = ei < BAD_OFFSET_ENTRIES.len();
+                match parse_bytes(text.as_bytes(), 7_000_000 + (ei * 12 + idx * 2 + block as usize) as u64) {
+                    Parsed::Panic(m) => rep.fail("C19/no-panic/offsets-entry", rn + 7_000_000 + ei as u64, json!({"kind":"bytes","text": text}), format!("panicked: {m}")),
+                    Parsed::Ok(p) if must_err => rep.fail(
+                        "C19/malformed-offset-entry-accepted",
+                        rn + 7_100_000 + ei as u64,
+                        json!({"kind":"malformed-offset","text": text}),
+                        format!("offsets entry `{entry}` is neither a number nor deg(<number>) but the file parsed, offsets = {:?}", p.offsets),
+                    ),
+                    Parsed::Ok(_) => rep.sig("offsets-entry:ok"),
+                    Parsed::Err(_) => rep.sig("offsets-entry:err"),
+                }
+            }
+        }
     }
     // every byte string of length 0, 1 and 2
     let brep = par::run(1 + 256 + 65536, |idx, r| {
@@ -421,7 +457,7 @@ pub fn run(ctx: &Ctx) -> Report {
         "round trip: 8x8x8 length choices (incl. 0, 1, negatives, 1e-7, 12345.678) x 9 offset patterns (incl. offsets of 3e-6, 5e-5, 2.5e-4 rad) x 4 sign patterns x dof -> to_yaml -> file -> \
          from_yaml_file; documented variants: number style x offset style x array length 6/5 x dof {{absent, top level, nested}} x arrays present/absent x \
          {{plain, comments, CRLF, trailing spaces}} against the harness's own expectation; no panic: all 1- and 2-edit deviations of the documented file \
-         ({} single edits), all token strings up to length {maxlen} over a 20-token alphabet, every byte string of length <= 2, 10 special byte strings; signature = outcome class",
+         ({} single edits), all token strings up to length {maxlen} over a 22-token alphabet (incl. a bare `deg(` and `)`), every offsets entry replaced by malformed deg() forms (must be an error, not a misreading), every byte string of length <= 2, 10 special byte strings; signature = outcome class",
         n1
     );
     rep.set("axes", json!({"round_trip_records": rn, "variants": vs.len(), "single_edits": n1, "token_alphabet": 20, "token_max_len": maxlen}));
@@ -436,6 +472,11 @@ pub fn replay(case: &Value) -> Vec<String> {
         }
         "round-trip-params" => eval_round_trip(&params_from_json(&case["params"]), 1),
         "variant" => eval_variant(&variants()[case["index"].as_u64().unwrap() as usize], 1),
+        "malformed-offset" => match parse_bytes(case["text"].as_str().unwrap().as_bytes(), 1) {
+            Parsed::Panic(m) => Some(("C19/no-panic".to_string(), format!("panicked: {m}"))),
+            Parsed::Ok(p) => Some(("C19/malformed-offset-entry-accepted".to_string(), format!("parsed with offsets {:?}", p.offsets))),
+            _ => None,
+        },
         "bytes" => match parse_bytes(case["text"].as_str().unwrap().as_bytes(), 1) {
             Parsed::Panic(m) => Some(("C19/no-panic".to_string(), format!("panicked: {m}"))),
             _ => None,
